@@ -163,7 +163,14 @@ def _range_is(it, lo, hi_term_plus):
 def guard_equiv(guards, accepted):
     """Is the conjunction of the event's guards equivalent to 'not skip' for one of the accepted skip conditions?"""
     g = ("and", tuple((gt if pol else ("un", "not", gt)) for gt, pol in guards)) if guards else TRUE
-    T = lambda c: ("ite", c, TRUE, FALSE)
+    from ..rules import lift_ite, rewrite, small_rewrites
+
+    def letter_not_none(t):
+        # a letter of a string (x[k], or the loop variable over an alphabet) is never None
+        if head(t) == "cmp" and t[1] in ("is", "isnot", "==", "!=") and is_const(strip(t[3]), None) and head(strip(t[2])) in ("sub", "iter", "elem", "citer"):
+            return FALSE if t[1] in ("is", "==") else TRUE
+        return t
+    T = lambda c: lift_ite(rewrite(rewrite(lift_ite(("ite", c, TRUE, FALSE)), letter_not_none), small_rewrites))
     isint = lambda t: head(t) in ("iter", "elem") or (head(t) == "call" and strip(t[1]) == ("glob", "builtins.len"))
     for k, skip in enumerate(accepted):
         m, _ = compare_trees(T(strip_all(g)), T(("un", "not", strip_all(skip))), lambda a, b: a == b, int_subjects=isint)
